@@ -17,13 +17,21 @@ tpl = '/tmp/seed/brief_template.md' if os.path.exists('/tmp/seed/brief_template.
 t = open(tpl).read().replace('__PROPERTY__', text).replace('__WT__', wt).replace('__ID__', tag)
 if rnd:
     taken = []
-    for v in ('A', 'B', 'C', 'D'):
+    for v in ('A', 'B', 'C', 'D', 'E', 'F'):
         mp = '/verif/seeded/%s-%s/meta.json' % (pid, v)
         if os.path.exists(mp):
             m = json.load(open(mp))
             taken.append('- %s (files: %s)' % (m.get('summary', '')[:300], ', '.join(m.get('files', []))))
     t += '\n\n## Already taken\n\nSeveral seeded defects for this property exist already; yours must use DIFFERENT ideas and preferably different functions/files:\n' + '\n'.join(taken)
-    if rnd == 'r3':
+    if rnd == 'r4':
+        t += ('\n\nIn this round be adversarial. Assume the property is guarded by a strong generated-input test suite that enumerates every value of 8- and 16-bit '
+              'types, tries boundary values (0, +-1, min, max, powers of two and their neighbours, all-ones) and many random values of wider types, sweeps every exponent, '
+              'digit count and width, uses every operator form (binary, compound, ++/--, built-in operand on either side, free functions), both compilers and every tag. '
+              'Devise a defect that such a suite could still plausibly miss: one that needs a CONJUNCTION of two or three independent uncommon conditions (a particular '
+              'type/template-argument combination AND a particular relation between the operand values AND perhaps a particular operator form), or one that is confined to '
+              'a region of 32/64/128-bit operand values that is neither a boundary value nor likely to be hit by random or structured sampling, while remaining reachable '
+              'through the public API on in-domain inputs. Say in meta.json why you expect it to be missed.\n')
+    elif rnd == 'r3':
         t += ('\n\nIn this round look for parts of the behaviour the property covers that are reached through LESS COMMON ENTRY POINTS or forms: free functions and '
               'function objects next to operators, compound assignment and increment/decrement, operands in the other order (built-in on the left), conversions between '
               'different wrapper families or nestings, constexpr versus run-time evaluation, the second compiler (clang++ 14 is installed; some code is selected by '
